@@ -14,7 +14,6 @@ from types import (
     ModuleType,
     SimpleNamespace,
 )
-from weakref import WeakKeyDictionary
 
 from .doc import (
     always_break,
@@ -1152,28 +1151,15 @@ def resolve_cnamedtuple_fieldnames(value):
     )
 
 
-# Keys: classes/constructors
-# Values: a tuple of fieldnames is resolving them was successful.
-#         Otherwise, an exception that was raised when attempting
-#         to resolve the fieldnames.
-_cnamedtuple_fieldnames_by_class = WeakKeyDictionary()
-
-
 # Examples of cnamedtuples:
 # - return value of time.strptime()
 # - return value of os.uname()
 def pretty_cnamedtuple(value, ctx, trailing_comment=None):
     cls = type(value)
-    if cls not in _cnamedtuple_fieldnames_by_class:
-        try:
-            fieldnames = resolve_cnamedtuple_fieldnames(value)
-        except Exception as exc:
-            fieldnames = exc
-        _cnamedtuple_fieldnames_by_class[cls] = fieldnames
-
-    fieldnames = _cnamedtuple_fieldnames_by_class[cls]
-    if isinstance(fieldnames, Exception):
-        raise fieldnames
+    # Field names that had to be parsed from the repr of a value depend
+    # on that value (the reprs of its elements may not parse), so they
+    # are resolved for every value instead of being remembered per class.
+    fieldnames = resolve_cnamedtuple_fieldnames(value)
 
     return pretty_call_alt(
         ctx,
